@@ -127,6 +127,11 @@ type mxFacts struct {
 	TLSA     string `json:"tlsa"` // absent | nodata | servfail | records
 	TLSARecs []tlsaRec
 	TLSAAD   bool `json:"tlsa_ad"`
+	// CNAME: the MX host name is an alias (same DNSSEC status as the address
+	// records) of canonName(); the TLSA RRset is then published at the canonical
+	// name only and nothing exists at _25._tcp.<MX name> (RFC 7672 2.2.2: the
+	// expanded name is tried first, the original name afterwards).
+	CNAME    bool `json:"mx_host_is_cname,omitempty"`
 	STSMatch bool `json:"sts_match"`
 	DotCode  int  `json:"dot_code"`
 	idx      int
@@ -218,8 +223,12 @@ func genMX(p *prng.R, dom, i int, pref uint16) mxFacts {
 	}
 	m.STSMatch = p.Chance(70, 100)
 	m.DotCode = []int{250, 451, 554}[p.Weighted([]int{90, 5, 5})]
+	// (own stream: the other draws stay what they were before this fact existed)
+	m.CNAME = prng.New(p.Uint64(), uint64(dom*2+i), "c05-mx-cname").Chance(22, 100)
 	return m
 }
+
+func (m *mxFacts) canonName() string { return "canon-" + m.Name }
 
 func genDomain(p *prng.R, dom int) domainFacts {
 	d := domainFacts{Name: domainNames[dom]}
@@ -580,8 +589,14 @@ func buildWorld(sc *scenario) (*world, error) {
 			if m.AErr {
 				az.Err = errors.New("c05: scripted SERVFAIL")
 			}
-			zones[m.Name+"."] = az
 			tn := "_25._tcp." + m.Name + "."
+			if m.CNAME {
+				zones[m.Name+"."] = mockdns.Zone{AD: m.AAD, CNAME: m.canonName() + "."}
+				zones[m.canonName()+"."] = az
+				tn = "_25._tcp." + m.canonName() + "."
+			} else {
+				zones[m.Name+"."] = az
+			}
 			switch m.TLSA {
 			case "nodata":
 				zones[tn] = mockdns.Zone{AD: m.TLSAAD}
@@ -1348,6 +1363,13 @@ func TestVerif(t *testing.T) {
 					o := outs[j].Rcpts[k]
 					d := &sc.Domains[di]
 					r.Count("recipient_outcome_"+o.Class, 1)
+					if sc.DANE {
+						for mi := range d.MXs {
+							if m := &d.MXs[mi]; m.CNAME {
+								r.Count("dane_recipients_with_cname_mx_host/tlsa_at_canonical_name="+m.tlsaDiscovery(), 1)
+							}
+						}
+					}
 					if o.err == nil {
 						continue
 					}
